@@ -43,6 +43,15 @@ Definition U_checked_shl (w : Z) (self : list Z) (rhs : Z) : option (list Z) :=
 Definition U_checked_shr (w : Z) (self : list Z) (rhs : Z) : option (list Z) :=
   if (Z.leb (bits w (length self)) rhs) then None else (Some (Shift.shr_pad_internal w false self rhs)).
 
+Definition U_checked_next_multiple_of (dbg : bool) (w : Z) (self : list Z) (rhs : list Z) : outcome (option (list Z)) :=
+  match (Div.U_checked_rem w self rhs) with Some rem => (if (Core.is_zero rem) then (Ret (Some self)) else (omap (fun (r1 : list Z) => (AddSub.U_checked_add w self r1)) (AddSub.U_sub dbg w rhs rem))) | None => (Ret None) end.
+
+Definition U_checked_ilog2 (w : Z) (self : list Z) : option (Z) :=
+  if Z.ltb (Bits.bits_of w self) 1 then None else Some (Z.sub (Bits.bits_of w self) 1).
+
+Definition U_checked_next_power_of_two (w : Z) (self : list Z) : outcome (option (list Z)) :=
+  if (Bits.U_is_power_of_two self) then (Ret (Some self)) else (let bits_ := (Bits.bits_of w self) in (if (Z.eqb bits_ (bits w (length self))) then (Ret None) else (omap (fun (r1 : list Z) => (Some r1)) (Bits.power_of_two w (length self) bits_)))).
+
 (* ---- src/buint/wrapping.rs (macro wrapping) ---- *)
 Definition U_wrapping_add (w : Z) (self : list Z) (rhs : list Z) : list Z :=
   fst (AddSub.U_overflowing_add w self rhs).
@@ -313,6 +322,12 @@ Definition I_checked_shr (w : Z) (self : list Z) (rhs : Z) : option (list Z) :=
 Definition I_checked_abs (w : Z) (self : list Z) : option (list Z) :=
   Core.tuple_to_option (AddSub.I_overflowing_abs w self).
 
+Definition I_checked_pow (w : Z) (self : list Z) (pow : Z) : option (list Z) :=
+  match (Pow.U_checked_pow w (AddSub.I_unsigned_abs w self) pow) with Some u => (let out := u in (let neg := (Core.is_negative w self) in (if (orb (negb neg) (Z.eqb (Z.land pow 1) 0)) then (if (Core.is_negative w out) then None else (Some out)) else (let out := (AddSub.I_wrapping_neg w out) in (if (negb (Core.is_negative w out)) then None else (Some out)))))) | None => None end.
+
+Definition I_checked_next_multiple_of (dbg : bool) (w : Z) (self : list Z) (rhs : list Z) : outcome (option (list Z)) :=
+  if (Core.is_zero rhs) then (Ret None) else (omap (fun (rem : list Z) => (if (Core.is_zero rem) then (Some self) else (if (Bool.eqb (Core.is_negative w rem) (Core.is_negative w rhs)) then (AddSub.I_checked_add w self (AddSub.I_wrapping_sub w rhs rem)) else (AddSub.I_checked_sub w self rem)))) (Div.I_wrapping_rem_euclid dbg w self rhs)).
+
 (* ---- src/bint/wrapping.rs (macro wrapping) ---- *)
 Definition I_wrapping_add (w : Z) (self : list Z) (rhs : list Z) : list Z :=
   AddSub.U_wrapping_add w self rhs.
@@ -422,8 +437,20 @@ Definition I_overflowing_sub_unsigned (w : Z) (self : list Z) (rhs : list Z) : (
 Definition I_overflowing_mul (w : Z) (self : list Z) (rhs : list Z) : (list Z * bool) :=
   let '(uint, overflow) := (Mul.U_overflowing_mul w (AddSub.I_unsigned_abs w self) (AddSub.I_unsigned_abs w rhs)) in (let out := uint in (if (Bool.eqb (Core.is_negative w self) (Core.is_negative w rhs)) then (out, (orb overflow (Core.is_negative w out))) else (match (AddSub.I_checked_neg w out) with Some n => (n, (orb overflow (Core.is_negative w out))) | None => (out, overflow) end))).
 
+Definition I_div_rem_unchecked (dbg : bool) (w : Z) (self : list Z) (rhs : list Z) : outcome ((list Z * list Z)) :=
+  if (andb (Core.eq_digits self (Core.IMIN w (length self))) (Core.is_one rhs)) then (Ret (self, (Core.ZERO (length self)))) else (let '(div, rem) := (Div.U_div_rem_unchecked w (AddSub.I_unsigned_abs w self) (AddSub.I_unsigned_abs w rhs)) in (let '(div, rem) := (div, rem) in (match ((Core.is_negative w self), (Core.is_negative w rhs)) with (false, false) => (Ret (div, rem)) | (false, true) => (omap (fun (r1 : list Z) => (r1, rem)) (AddSub.I_neg dbg w div)) | (true, false) => (obind (AddSub.I_neg dbg w div) (fun (r2 : list Z) => (omap (fun (r3 : list Z) => (r2, r3)) (AddSub.I_neg dbg w rem)))) | (true, true) => (omap (fun (r4 : list Z) => (div, r4)) (AddSub.I_neg dbg w rem)) end))).
+
+Definition I_overflowing_div (dbg : bool) (w : Z) (self : list Z) (rhs : list Z) : outcome ((list Z * bool)) :=
+  if (Core.is_zero rhs) then Panic else (if (Core.eq_digits self (Core.IMIN w (length self))) then (if (Core.eq_digits rhs (Core.NEG_ONE w (length self))) then (Ret (self, true)) else (if (Core.is_one rhs) then (Ret (self, false)) else (omap (fun (r1 : (list Z * list Z)) => ((fst r1), false)) (Div.I_div_rem_unchecked dbg w self rhs)))) else (omap (fun (r2 : (list Z * list Z)) => ((fst r2), false)) (Div.I_div_rem_unchecked dbg w self rhs))).
+
+Definition I_overflowing_div_euclid (dbg : bool) (w : Z) (self : list Z) (rhs : list Z) : outcome ((list Z * bool)) :=
+  if (Core.is_zero rhs) then Panic else (if (Core.eq_digits self (Core.IMIN w (length self))) then (if (Core.eq_digits rhs (Core.NEG_ONE w (length self))) then (Ret (self, true)) else (if (Core.is_one rhs) then (Ret (self, false)) else (obind (Div.I_div_rem_unchecked dbg w self rhs) (fun '((div, rem) : (list Z * list Z)) => (if (Core.is_negative w self) then (let r_neg := (Core.is_negative w rhs) in (if (negb (Core.is_zero rem)) then (if r_neg then (omap (fun (r1 : list Z) => (r1, false)) (AddSub.I_add dbg w div (Core.ONE (length self)))) else (omap (fun (r2 : list Z) => (r2, false)) (AddSub.I_sub dbg w div (Core.ONE (length self))))) else (Ret (div, false)))) else (Ret (div, false))))))) else (obind (Div.I_div_rem_unchecked dbg w self rhs) (fun '((div, rem) : (list Z * list Z)) => (if (Core.is_negative w self) then (let r_neg := (Core.is_negative w rhs) in (if (negb (Core.is_zero rem)) then (if r_neg then (omap (fun (r3 : list Z) => (r3, false)) (AddSub.I_add dbg w div (Core.ONE (length self)))) else (omap (fun (r4 : list Z) => (r4, false)) (AddSub.I_sub dbg w div (Core.ONE (length self))))) else (Ret (div, false)))) else (Ret (div, false)))))).
+
 Definition I_overflowing_rem (dbg : bool) (w : Z) (self : list Z) (rhs : list Z) : outcome ((list Z * bool)) :=
   if (Core.is_zero rhs) then Panic else (if (andb (Core.eq_digits self (Core.IMIN w (length self))) (Core.eq_digits rhs (Core.NEG_ONE w (length self)))) then (Ret ((Core.ZERO (length self)), true)) else (omap (fun (r1 : (list Z * list Z)) => ((snd r1), false)) (Div.I_div_rem_unchecked dbg w self rhs))).
+
+Definition I_overflowing_rem_euclid (dbg : bool) (w : Z) (self : list Z) (rhs : list Z) : outcome ((list Z * bool)) :=
+  if (Core.is_zero rhs) then Panic else (if (andb (Core.eq_digits self (Core.IMIN w (length self))) (Core.eq_digits rhs (Core.NEG_ONE w (length self)))) then (Ret ((Core.ZERO (length self)), true)) else (omap (fun (r1 : (list Z * list Z)) => (let rem := (snd r1) in (let rem := (if (Core.is_negative w rem) then (let rem := (if (Core.is_negative w rhs) then (let rem := (AddSub.I_wrapping_sub w rem rhs) in rem) else (let rem := (AddSub.I_wrapping_add w rem rhs) in rem)) in rem) else rem) in (rem, false)))) (Div.I_div_rem_unchecked dbg w self rhs))).
 
 Definition I_overflowing_shl (w : Z) (self : list Z) (rhs : Z) : (list Z * bool) :=
   let '(uint, overflow) := (Shift.U_overflowing_shl w self rhs) in (uint, overflow).
@@ -433,6 +460,81 @@ Definition I_overflowing_shr (w : Z) (self : list Z) (rhs : Z) : (list Z * bool)
 
 Definition I_overflowing_abs (w : Z) (self : list Z) : (list Z * bool) :=
   if (Core.is_negative w self) then (AddSub.I_overflowing_neg w self) else (self, false).
+
+Definition I_overflowing_pow (w : Z) (self : list Z) (pow : Z) : (list Z * bool) :=
+  let '(u, overflow) := (Pow.U_overflowing_pow w (AddSub.I_unsigned_abs w self) pow) in (let out_neg := (andb (Core.is_negative w self) (Z.eqb (Z.land pow 1) 1)) in (let out := u in (let '(out, overflow) := (if out_neg then (let out := (AddSub.I_wrapping_neg w out) in (let overflow := (orb overflow (negb (Core.is_negative w out))) in (out, overflow))) else (let overflow := (orb overflow (Core.is_negative w out)) in (out, overflow))) in (out, overflow)))).
+
+(* ---- src/buint/const_trait_fillers.rs (macro const_trait_fillers) ---- *)
+Definition U_ne (w : Z) (self : list Z) (other : list Z) : bool :=
+  negb (Core.eq_digits self other).
+
+Definition U_div (w : Z) (self : list Z) (rhs : list Z) : outcome (list Z) :=
+  Div.U_wrapping_div w self rhs.
+
+Definition U_rem (w : Z) (self : list Z) (rhs : list Z) : outcome (list Z) :=
+  Div.U_wrapping_rem w self rhs.
+
+(* ---- src/bint/const_trait_fillers.rs (macro const_trait_fillers) ---- *)
+Definition I_bitand (w : Z) (self : list Z) (rhs : list Z) : list Z :=
+  Core.bitand self rhs.
+
+Definition I_bitor (w : Z) (self : list Z) (rhs : list Z) : list Z :=
+  Core.bitor self rhs.
+
+Definition I_bitxor (w : Z) (self : list Z) (rhs : list Z) : list Z :=
+  Core.bitxor self rhs.
+
+Definition I_not (w : Z) (self : list Z) : list Z :=
+  Core.bitnot w self.
+
+Definition I_eq (w : Z) (self : list Z) (other : list Z) : bool :=
+  Core.eq_digits self other.
+
+Definition I_ne (w : Z) (self : list Z) (other : list Z) : bool :=
+  negb (Core.eq_digits self other).
+
+Definition I_cmp (w : Z) (self : list Z) (other : list Z) : comparison :=
+  let s1 := (Core.signed_digit w self) in (let s2 := (Core.signed_digit w other) in (if (Z.eqb s1 s2) then (Core.ucmp self other) else (if (Z.ltb s2 s1) then Gt else Lt))).
+
+Definition I_neg (dbg : bool) (w : Z) (self : list Z) : outcome (list Z) :=
+  if dbg then (AddSub.I_strict_neg w self) else (Ret (AddSub.I_wrapping_neg w self)).
+
+Definition I_div (dbg : bool) (w : Z) (self : list Z) (rhs : list Z) : outcome (list Z) :=
+  if (andb (Core.eq_digits self (Core.IMIN w (length self))) (Core.eq_digits rhs (Core.NEG_ONE w (length self)))) then Panic else (if (Core.is_zero rhs) then Panic else (omap (fun (r1 : (list Z * list Z)) => (fst r1)) (Div.I_div_rem_unchecked dbg w self rhs))).
+
+Definition I_rem (dbg : bool) (w : Z) (self : list Z) (rhs : list Z) : outcome (list Z) :=
+  if (andb (Core.eq_digits self (Core.IMIN w (length self))) (Core.eq_digits rhs (Core.NEG_ONE w (length self)))) then Panic else (if (Core.is_zero rhs) then Panic else (omap (fun (r1 : (list Z * list Z)) => (snd r1)) (Div.I_div_rem_unchecked dbg w self rhs))).
+
+(* ---- src/int/unchecked.rs (macro impls) ---- *)
+Definition U_unchecked_add (w : Z) (self : list Z) (rhs : list Z) : option (list Z) :=
+  AddSub.U_checked_add w self rhs.
+
+Definition U_unchecked_sub (w : Z) (self : list Z) (rhs : list Z) : option (list Z) :=
+  AddSub.U_checked_sub w self rhs.
+
+Definition U_unchecked_mul (w : Z) (self : list Z) (rhs : list Z) : option (list Z) :=
+  Mul.U_checked_mul w self rhs.
+
+Definition U_unchecked_shl (w : Z) (self : list Z) (rhs : Z) : option (list Z) :=
+  Shift.U_checked_shl w self rhs.
+
+Definition U_unchecked_shr (w : Z) (self : list Z) (rhs : Z) : option (list Z) :=
+  Shift.U_checked_shr w self rhs.
+
+Definition I_unchecked_add (w : Z) (self : list Z) (rhs : list Z) : option (list Z) :=
+  AddSub.I_checked_add w self rhs.
+
+Definition I_unchecked_sub (w : Z) (self : list Z) (rhs : list Z) : option (list Z) :=
+  AddSub.I_checked_sub w self rhs.
+
+Definition I_unchecked_mul (w : Z) (self : list Z) (rhs : list Z) : option (list Z) :=
+  Mul.I_checked_mul w self rhs.
+
+Definition I_unchecked_shl (w : Z) (self : list Z) (rhs : Z) : option (list Z) :=
+  Shift.I_checked_shl w self rhs.
+
+Definition I_unchecked_shr (w : Z) (self : list Z) (rhs : Z) : option (list Z) :=
+  Shift.I_checked_shr w self rhs.
 
 (* ---- src/buint/mod.rs (macro mod_impl) ---- *)
 Definition U_cast_signed (w : Z) (self : list Z) : list Z :=
